@@ -175,6 +175,8 @@ type Env struct {
 	reqN    atomic.Int64
 	mgmt    *http.Client
 	lastVer atomic.Int64 // index (in the current plan) of the version written last
+	swapVer atomic.Int64 // plan index of the version the signer swapped in last (hook event)
+	swapAt  atomic.Int64 // when (unix nanoseconds)
 	plan    []Version
 }
 
@@ -442,6 +444,16 @@ func (e *Env) Settle(idx int) error {
 			set, err := e.Poll(0)
 			if err == nil && sameSet(set, v.Pub) {
 				break
+			}
+
+			// the signer reported that it swapped this version in (hook event), but the JWKS endpoint
+			// keeps serving something else: that is behaviour of the code, not of the driver. The
+			// polls recorded since the swap are judged by the specification; no acknowledgement.
+			if at := e.swapAt.Load(); int(e.swapVer.Load()) == idx && at != 0 &&
+				time.Since(time.Unix(0, at)) > 1500*time.Millisecond {
+				Quiesce(0)
+
+				return nil
 			}
 
 			if time.Now().After(deadline) {
